@@ -1,4 +1,5 @@
 """Run a synthesised program under the real tracer with a ground-truth recorder; collect logs and residue."""
+import contextlib
 import gc
 import importlib
 import os
@@ -90,7 +91,7 @@ def residue(tracer, skip):
     return found_traces, found_frames
 
 
-def run_program(prog, scratch, k=0, sample_rate=None, rng_seed=None, accept=None, typer="k", keep_module=False):
+def run_program(prog, scratch, k=0, sample_rate=None, rng_seed=None, accept=None, typer="k", keep_module=False, trace=True):
     """accept: optional predicate(function index or None, code) restricting the filter (C17)."""
     src = synth.render(prog)
     try:
@@ -120,7 +121,7 @@ def run_program(prog, scratch, k=0, sample_rate=None, rng_seed=None, accept=None
         random.seed(rng_seed)
     res.driver_error = None
     try:
-        with trace_calls(lg, k, flt, sample_rate):
+        with (trace_calls(lg, k, flt, sample_rate) if trace else contextlib.nullcontext()):
             tracer = sys.getprofile()
             for op in prog["ops"] * prog.get("repeat", 1):
                 if op[0] == "call":
@@ -168,7 +169,6 @@ def run_program(prog, scratch, k=0, sample_rate=None, rng_seed=None, accept=None
                         left.append((cid, g))
             else:
                 left += live
-            res.traces_before_exit = residue(tracer, lg)
     except BaseException as e:
         if isinstance(e, (KeyboardInterrupt, SystemExit)):
             raise
@@ -177,7 +177,7 @@ def run_program(prog, scratch, k=0, sample_rate=None, rng_seed=None, accept=None
     res.left_frame_ids = {id(getattr(g, 'gi_frame', None) or getattr(g, 'cr_frame', None)) for _, g in left}
     res.logger = lg
     res.tracer = tracer
-    res.residue = residue(tracer, lg)
+    res.residue = residue(tracer, lg) if trace else ([], [])
     res.module = mod
     res.profile_after = sys.getprofile()
     if not keep_module:
